@@ -284,15 +284,30 @@ int main(int argc, char ** argv) {
             for (size_t si = 0; !bad && si < p.steps.size(); si++) {
                 const PStep & s = p.steps[si];
                 const std::string & t = s.act.at(0);
+                if (t == "spur") {       // spurious wake-up of the thread named in the argument
+                    const std::string & w = s.act.at(1);
+                    vsched::spurious_wake(w == "A" ? 0 : w == "U" ? 1 : 2);
+                    st.steps++;
+                    got = project(S);
+                    if (got != s.expect) { st.mismatch(pi, si, sc->name + " " + join_words(s.act), s.expect, got); bad = true; }
+                    continue;
+                }
                 int tid = t == "A" ? 0 : t == "U" ? 1 : 2;
                 if (!vsched::runnable(tid)) {
                     st.mismatch(pi, si, sc->name + " " + join_words(s.act), "\"thread can step\"", project(S));
                     bad = true;
                     break;
                 }
+                std::string before = got;
                 vsched::step(tid);
                 st.steps++;
                 got = project(S);
+                // tolerate extra invisible steps of the implementation (e.g. an added observer call):
+                // a step that changes nothing observable where the spec expects a change is retried
+                for (int extra = 0; extra < 3 && got != s.expect && got == before && vsched::runnable(tid); extra++) {
+                    vsched::step(tid);
+                    got = project(S);
+                }
                 if (got != s.expect) { st.mismatch(pi, si, sc->name + " " + join_words(s.act), s.expect, got); bad = true; }
             }
             std::string v = finish_session(S, 400000);
@@ -321,7 +336,7 @@ int main(int argc, char ** argv) {
                         if (vsched::runnable(t)) run.push_back(t);
                     if (run.empty()) { verdict = vsched::all_finished() ? "" : "deadlock"; break; }
                     int t = run[rng() % run.size()];
-                    long burst = 1 + (long) (rng() % 64);
+                    long burst = 1 + (long) (rng() % ((rng() % 8 == 0) ? 5000 : 64));   // occasionally starve the others
                     for (long b = 0; b < burst && vsched::runnable(t); b++) {
                         vsched::step(t);
                         steps++;
